@@ -15,6 +15,9 @@ RULE_MODULES = {
     'TMR': 'rules.p_tmr',
     'PDO': 'rules.p_pdo',
     'SYNC': 'rules.p_sync',
+    'CSDO': 'rules.p_csdo',
+    'DICT': 'rules.p_dict',
+    'SDO2': 'rules.p_sdo2',
 }
 
 
@@ -44,6 +47,22 @@ PROPERTIES = {
         'not_decided': 'the whole reachability claim (no sanitizer report on any history): SDO buffer cursor bounds across '
                        'frames, undefined arithmetic, driver-fault sequences',
     },
+    'C06': {
+        'rules': ['DICT'],
+        'technique': 'shape rules over the CFG (init walk, canonical binary-search form with unsigned masked comparisons), '
+                     'decision tables of the typed accessors and integer type functions over flag/width classes, '
+                     'conversion check on the buffer length path, guard folding of the domain length clip',
+        'explanation': 'Init walk: every entry the loop condition tests is initialised exactly once before the single '
+                       'advance; CODictFind is in canonical inclusive binary-search form (mid between the bounds, the moved '
+                       'bound excludes mid, upper bound moves iff the masked element key is greater, unsigned 32-bit '
+                       'comparisons of keys masked with FFFFFF00h on both sides, no signed difference); typed accessors '
+                       'query the size with their own width and refuse other widths before access; integer types agree '
+                       '(node-id added on read / subtracted on write, width check, TPDO trigger iff asynchronous, mappable '
+                       'and changed); buffer length reaches the object layer unconverted; domain access moves '
+                       'min(requested, remaining) bytes and a start access resets the offset first.',
+        'not_decided': 'round-trip of every value and correctness of the search on every concrete dictionary beyond the '
+                       'shape argument',
+    },
     'C08': {
         'rules': ['RF4', 'RF5', 'TMR'],
         'technique': 'lock-depth dataflow over co_tmr.c (helpers inherit the depth of all call sites); non-null '
@@ -62,6 +81,30 @@ PROPERTIES = {
                        'SYNC tables is in range; RF5: Sync.RPdo[i] is tested before it is dereferenced.',
         'not_decided': 'field values written',
     },
+    'C02': {
+        'rules': ['SDO2', 'SDO'],
+        'exhaustive': False,
+        'technique': 'response-template folding (RF13) of the five download handlers over input classes, toggle / sequence '
+                     'guard tables, constant folding of the per-server buffer offset, must-write vs upward-exposed-read '
+                     'sets across frames',
+        'explanation': 'Download handlers: response command, toggle bit, acknowledged sequence number, next block size and '
+                       'the number of bytes flushed to the object are the CiA 301 values for every input class; a wrong '
+                       'toggle or an out-of-sequence block segment consumes nothing; strict/non-strict size negotiation per '
+                       'initiator and the COSdoGetSize table; servers use disjoint buffer slices of at least 127x7 bytes; '
+                       'every transfer field a continuation handler reads is set by its initiator on every successful path.',
+        'not_decided': 'object == payload for every size and segmentation (data movement through counters)',
+    },
+    'C03': {
+        'rules': ['SDO2'],
+        'exhaustive': False,
+        'technique': 'response-template folding (RF13) of the upload handlers, call-graph effect rule, must-write vs '
+                     'upward-exposed-read sets across frames',
+        'explanation': 'Upload handlers: 43h|n / 41h+size / t<<4|(7-w)<<1|c / C2h+size / C1h|n<<2 templates, announced size '
+                       'is the size-query result, toggle guard, block size taken from the initiate and from every '
+                       'acknowledge, sequence-number checks; no upload handler reaches a write of the object; transfer '
+                       'fields are set by the initiator before a continuation reads them.',
+        'not_decided': 'reassembled bytes for every acknowledge pattern (go-back-N arithmetic)',
+    },
     'C04': {
         'rules': ['SDO'],
         'exhaustive': True,
@@ -76,7 +119,7 @@ PROPERTIES = {
         'not_decided': 'side-effect freedom of user-supplied type functions; response payload values',
     },
     'C05': {
-        'rules': ['SDO'],
+        'rules': ['SDO', 'SDO2'],
         'exhaustive': True,
         'technique': 'decision-table extraction, must-store on all paths, guard-before-use dataflow',
         'explanation': 'Necessary conditions for "no history wedges a server": client abort 80h reaches the reset '
@@ -171,7 +214,7 @@ PROPERTIES = {
         'not_decided': 'period exactness',
     },
     'C19': {
-        'rules': ['RF3'],
+        'rules': ['RF3', 'CSDO'],
         'explanation': 'Timer-handle typestate for CO_CSDO_TRANSFER.Tmr and the verified invariant '
                        '"State != BUSY => Tfer.Tmr released".',
         'not_decided': 'data equality',
